@@ -237,57 +237,67 @@ func explore(c crashCase, scratch string) (points int, leftovers int, err error)
 		pb, _ := ioutil.ReadFile(countFile)
 		lines := strings.Split(strings.TrimSpace(string(pb)), "\n")
 		point := lines[len(lines)-1]
-		// restart: a fresh store on the directory
-		fresh, _ := util.NewFileStorage(work)
-		got, gerr := fresh.Get(storageKey)
-		switch {
-		case gerr != nil:
-			if hadOld {
-				return points, leftovers, fmt.Errorf("crash at point %s: key %q is gone (it held %d bytes before the write)", point, storageKey, len(oldRaw))
-			}
-		case bytes.Equal(got, newRaw):
-		case hadOld && bytes.Equal(got, oldRaw):
-		default:
-			return points, leftovers, fmt.Errorf("crash at point %s: key %q holds %d bytes %q - neither the previous value (%s) nor the new one (%d bytes)", point, storageKey, len(got), trunc(got), describeOld(hadOld, oldRaw), len(newRaw))
-		}
-		ks, _ := fresh.KeysWithSuffix("")
-		sort.Strings(ks)
-		for name, want := range snap {
-			if name == storageKey {
-				continue
-			}
-			b, err := fresh.Get(name)
-			if err != nil || !bytes.Equal(b, want) {
-				return points, leftovers, fmt.Errorf("crash at point %s: other key %q changed", point, name)
-			}
-		}
-		for _, name := range ks {
-			if _, ok := snap[name]; !ok && name != storageKey {
-				leftovers++
-				if strings.HasSuffix(name, ".entity") {
-					return points, leftovers, fmt.Errorf("crash at point %s: stray entity file %q", point, name)
-				}
-			}
-		}
-		if _, err := db.NewDatabaseWithStorage(fresh).Entities(); err != nil {
-			return points, leftovers, fmt.Errorf("crash at point %s: the pairing database no longer loads: %v", point, err)
-		}
-		// the store keeps working like a map after the restart: later writes (shorter than what the
-		// interrupted write carried) are read back exactly
-		for _, fk := range []string{"follow-up", storageKey} {
-			short := []byte("s")
-			if fk == storageKey && c.Op == "save-entity" {
-				short = []byte(`{"Name":"x","PublicKey":"AQ==","PrivateKey":null}`)
-			}
-			if err := fresh.Set(fk, short); err != nil {
-				return points, leftovers, fmt.Errorf("crash at point %s: a later Set(%q) fails: %v", point, fk, err)
-			}
-			if got, err := fresh.Get(fk); err != nil || !bytes.Equal(got, short) {
-				return points, leftovers, fmt.Errorf("crash at point %s: after the restart Set(%q, %d bytes) reads back %d bytes %q", point, fk, len(short), len(got), trunc(got))
-			}
+		lo, jerr := judgeAfterCrash(c, work, storageKey, hadOld, oldRaw, newRaw, snap, point)
+		leftovers += lo
+		if jerr != nil {
+			return points, leftovers, jerr
 		}
 	}
 	return points, leftovers, nil
+}
+
+// judgeAfterCrash applies the oracle to the directory a killed write left behind.
+func judgeAfterCrash(c crashCase, work, storageKey string, hadOld bool, oldRaw, newRaw []byte, snap map[string][]byte, point string) (leftovers int, err error) {
+	// restart: a fresh store on the directory
+	fresh, _ := util.NewFileStorage(work)
+	got, gerr := fresh.Get(storageKey)
+	switch {
+	case gerr != nil:
+		if hadOld {
+			return leftovers, fmt.Errorf("crash at point %s: key %q is gone (it held %d bytes before the write)", point, storageKey, len(oldRaw))
+		}
+	case bytes.Equal(got, newRaw):
+	case hadOld && bytes.Equal(got, oldRaw):
+	default:
+		return leftovers, fmt.Errorf("crash at point %s: key %q holds %d bytes %q - neither the previous value (%s) nor the new one (%d bytes)", point, storageKey, len(got), trunc(got), describeOld(hadOld, oldRaw), len(newRaw))
+	}
+	ks, _ := fresh.KeysWithSuffix("")
+	sort.Strings(ks)
+	for name, want := range snap {
+		if name == storageKey {
+			continue
+		}
+		b, err := fresh.Get(name)
+		if err != nil || !bytes.Equal(b, want) {
+			return leftovers, fmt.Errorf("crash at point %s: other key %q changed", point, name)
+		}
+	}
+	for _, name := range ks {
+		if _, ok := snap[name]; !ok && name != storageKey {
+			leftovers++
+			if strings.HasSuffix(name, ".entity") {
+				return leftovers, fmt.Errorf("crash at point %s: stray entity file %q", point, name)
+			}
+		}
+	}
+	if _, err := db.NewDatabaseWithStorage(fresh).Entities(); err != nil {
+		return leftovers, fmt.Errorf("crash at point %s: the pairing database no longer loads: %v", point, err)
+	}
+	// the store keeps working like a map after the restart: later writes (shorter than what the
+	// interrupted write carried) are read back exactly
+	for _, fk := range []string{"follow-up", storageKey} {
+		short := []byte("s")
+		if fk == storageKey && c.Op == "save-entity" {
+			short = []byte(`{"Name":"x","PublicKey":"AQ==","PrivateKey":null}`)
+		}
+		if err := fresh.Set(fk, short); err != nil {
+			return leftovers, fmt.Errorf("crash at point %s: a later Set(%q) fails: %v", point, fk, err)
+		}
+		if got, err := fresh.Get(fk); err != nil || !bytes.Equal(got, short) {
+			return leftovers, fmt.Errorf("crash at point %s: after the restart Set(%q, %d bytes) reads back %d bytes %q", point, fk, len(short), len(got), trunc(got))
+		}
+	}
+	return leftovers, nil
 }
 
 func describeOld(had bool, b []byte) string {
